@@ -64,7 +64,7 @@ CHECKS = {
         'sorted CSR and denotes the last-write-wins dense matrix (builder_refines_dense); for any valid CSR triple (sorted or not) cell, row and '
         'value->columns reads equal the dense matrix, each column once; any coordinate outside the shape (negative included) raises. '
         'Correspondence: all assignment sequences of length <=3 (quick) / <=4 (thorough) on a 2x3 matrix, degenerate shapes, random histories '
-        'and hand-built CSR triples, with every cell/row/value query and out-of-range coordinate read back from the real classes.',
+        'and hand-built CSR triples (incl. matrices with more than 255 stored cells), with every cell/row/value query and every coordinate of the whole wrap-around window read back from the real classes; plus a scale probe beyond the 16-bit boundary (~68 000 stored cells) compared directly with the dense matrix.',
         'Trusted: Coq kernel + vm_compute; numpy slicing / fancy assignment / masks and deque.insert modelled functionally; dtype values rendered '
         'as integers (exact). Error class is compared only as error-vs-value (the property does not fix it). NZ hypothesis = assignments of non-zero values, as the property states.',
         '§4 C17'),
